@@ -74,3 +74,13 @@ contract("ResultsSummary.__init__", kind="assumed", params=[("output_dir", "Opaq
                   "forall(x, keys(RS_RES(result)), RS_RES(result)[x].name == x)"],
          raises={"InvalidConfiguration": {"frame": True}},
          note="parses <output>/results.json (json + deserialize_results: a dict keyed by each row's name); raises when the file is missing")
+
+# ---- single-result accessors (C03: classification of a job is read back from the summary) ---------------------------------------
+contract("ResultsSummary.get_successful_result", file=F, params=[("self", "Ref[ResultsSummary]"), ("job_name", "Name")], returns="Ref[Result]",
+         requires=["RS_WF(self)"],
+         ensures=["job_name in RS_RES(self) and result == RS_RES(self)[job_name] and R_SUCC(result)"],
+         raises={"InvalidParameter": {"when": ["job_name not in RS_RES(self)"], "iff": True, "frame": True},
+                 "ExecutionError": {"when": ["job_name in RS_RES(self) and not R_SUCC(RS_RES(self)[job_name])"], "iff": True, "frame": True}})
+# get_successful_results / get_failed_results / get_canceled_results are filtered comprehensions that call x.is_*() - a call to a
+# non-pure contract inside a comprehension is outside the supported subset (undecided, not under contract); get_results_by_type, the
+# function resubmission uses, makes the same classification with an explicit loop and is verified above.
